@@ -21,6 +21,7 @@ import hashlib
 import io
 import os
 import shutil
+import signal
 import sys
 import tempfile
 import time
@@ -58,6 +59,8 @@ _TMP = None
 _DIMS = None
 _REAL = None     # (Lines, sites)
 _HDR = None      # C struct layouts (own reader)
+_NAME = dict(map="generate_mjcf_map", table="generate_mjcf_table", xsd="generate_xsd", dm="generate_dmcontrol",
+             rst="generate_schema", read="generate_read_table", defaults="generate_default_table")
 SCHEMA_ONLY = ("map", "table", "xsd", "dm", "rst")
 ALL = SCHEMA_ONLY + ("read", "defaults")
 
@@ -81,6 +84,17 @@ def load_generators():
         if not os.path.realpath(m.__file__).startswith(root):
             raise RuntimeError("%s imported from %s, not from the tree" % (k, m.__file__))
     return mods
+
+
+CPU_LIMIT_S = 120.0    # per generator run (CPU time); the real schema needs < 1 s
+
+
+class CpuTimeLimitExceeded(BaseException):
+    """A generator did not return within CPU_LIMIT_S seconds of CPU time (treated as non-termination)."""
+
+
+def _on_vtalarm(signum, frame):
+    raise CpuTimeLimitExceeded("no result after %.0f s of CPU time" % CPU_LIMIT_S)
 
 
 class State(object):
@@ -108,7 +122,15 @@ class State(object):
 
 
 def _generate(name, path, rst_inputs=None):
-    """Run one generator on the schema at `path` the way the pinned tests do."""
+    """Run one generator on the schema at `path` the way the pinned tests do (under a CPU-time limit)."""
+    signal.setitimer(signal.ITIMER_VIRTUAL, CPU_LIMIT_S)
+    try:
+        return _generate1(name, path, rst_inputs)
+    finally:
+        signal.setitimer(signal.ITIMER_VIRTUAL, 0)
+
+
+def _generate1(name, path, rst_inputs=None):
     mod = _M[name]
     if name == "rst":
         table_text, links_text = rst_inputs
@@ -188,8 +210,8 @@ def run_case(st, text, space, gens, twice=True):
                     part.add("refused_as_documented")
                 else:
                     st.violation("%s:raised-%s" % (gen, type(err).__name__),
-                                 "generate_%s raised %s (%s) on a valid schema%s" %
-                                 (gen, type(err).__name__, str(err)[:160],
+                                 "%s raised %s (%s) on a valid schema%s" %
+                                 (_NAME[gen], type(err).__name__, str(err)[:160],
                                   " it documents as unsupported (%s) but not with ValueError" % verdict if verdict else ""),
                                  text, space, gen)
                 continue
@@ -202,18 +224,19 @@ def run_case(st, text, space, gens, twice=True):
                                             "items_compared": verdict})
             st.n += 1
         except X.Refuse as r:
-            st.violation("%s:accepted-unsupported" % gen, "generate_%s produced output for a schema it documents as "
-                         "unsupported (%s)" % (gen, r.why), text, space, gen)
+            st.violation("%s:accepted-unsupported" % gen, "%s produced output for a schema it documents as "
+                         "unsupported (%s)" % (_NAME[gen], r.why), text, space, gen)
         except X.Mismatch as m:
             if m.what == "harness":
                 raise RuntimeError("harness: %s on %r" % (m, text[:300]))
-            st.violation("%s:%s" % (gen, m.what), "generate_%s output disagrees with the schema: %s %s"
-                         % (gen, m.what, m.detail[:400]), text, space, gen)
+            key = m.what if ":" in m.what else "%s:%s" % (gen, m.what)
+            st.violation(key, "%s output disagrees with the schema: %s %s"
+                         % (_NAME[gen], m.what, m.detail[:400]), text, space, gen)
         except (KeyboardInterrupt, SystemExit):
             raise
         except Exception as e:      # noqa  reader failed on the output: the output is malformed
-            st.violation("%s:unreadable-%s" % (gen, type(e).__name__), "generate_%s output cannot be read back: %s %s"
-                         % (gen, type(e).__name__, str(e)[:200]), text, space, gen)
+            st.violation("%s:unreadable-%s" % (gen, type(e).__name__), "%s output cannot be read back: %s %s"
+                         % (_NAME[gen], type(e).__name__, str(e)[:200]), text, space, gen)
 
 
 def _levels(entries):
@@ -252,9 +275,6 @@ def _expect_refusal(gen, view, text):
     """Documented reason for which the generator may refuse this schema, or None."""
     try:
         if gen == "xsd":
-            X.xsd_expected(view, _DIMS)
-            for el in view.elements.values():
-                pass
             types, order = X.xsd_expected(view, _DIMS)
             for name, proj in order:
                 attrs = view.elements[name].attrs()
@@ -284,6 +304,7 @@ _FAMILIES = {
 
 
 def _work(chunk):
+    signal.signal(signal.SIGVTALRM, _on_vtalarm)
     st = State()
     for job in chunk:
         t0 = time.process_time()
